@@ -143,7 +143,7 @@ def gen_round(rng, nops):
     ops = []
     for _ in range(nops):
         ops.append({'kind': rng.choice(['add', 'delete', 'same', 'other', 'touch',
-                                        'same', 'same']),
+                                        'same', 'same', 'add-subtree']),
                     'pick': rng.randrange(1 << 20), 'seed': rng.randrange(1 << 30),
                     'when': rng.choice(['older', 'equal', '+1s', '+1h', '+10h', 'now',
                                         '+1s', '+30m'])})
@@ -205,6 +205,32 @@ def _apply_ops(rootA, rootB, ops, tprev):
                     f.write(data)
                 if mt is not None:
                     os.utime(os.path.join(r, rel), (mt, mt))
+            modified = True
+            continue
+        if k == 'add-subtree':
+            # a directory that arrives with its own, so far unreferenced Manifest
+            # (unpacked tarball, `cp -a`): file additions only, with any mtimes; the
+            # Manifest it brings may be right or stale (right size, wrong digest)
+            dn = 'nd%d' % (op['pick'] % 1000)
+            if os.path.lexists(os.path.join(rootA, dn)):
+                continue
+            ents = []
+            datas = {}
+            for i in range(rng.randint(1, 2)):
+                data = rng.randbytes(rng.choice([1, 50, 3000]))
+                datas['x%d' % i] = data
+                e = mtext.file_entry('DATA', 'x%d' % i, data, ['SHA256'])
+                if op['pick'] % 2:
+                    e['sums']['SHA256'] = '0' * 64
+                ents.append(e)
+            text = mtext.render(ents)
+            for r in (rootA, rootB):
+                os.mkdir(os.path.join(r, dn))
+                for nm, data in list(datas.items()) + [('Manifest', text.encode())]:
+                    with open(os.path.join(r, dn, nm), 'wb') as f:
+                        f.write(data)
+                    if mt is not None:
+                        os.utime(os.path.join(r, dn, nm), (mt, mt))
             modified = True
             continue
         if not files:
